@@ -291,6 +291,7 @@ func (r *runningRoutine) execute(
 	exitedCh chan struct{},
 	waitCh <-chan struct{},
 ) {
+	verifPoint(0, r)
 	var err error
 	if waitCh != nil {
 		select {
